@@ -72,10 +72,30 @@ def run(ctx):
     cf = os.path.join(ctx.out, "cases.ndjson")
     open(cf, "w").write("\n".join(json.dumps(c) for c in cases) + "\n")
     trace = os.path.join(ctx.out, "trace.ndjson")
-    rc, out = vlib.vh(["config", "--cases", cf, "--seed", ctx.seed, "--out", trace], timeout=6000)
-    if rc != 0:
-        raise vlib.ToolError("config driver failed: " + out[-2000:])
-    recs = [json.loads(l) for l in open(trace)]
+    # the driver writes one record per case and flushes it; if the code under test ABORTS the process (an allocation of an
+    # absurd size, a double panic) the case after the last record is the one that did it: that is recorded as a violation
+    # and the run resumes behind it.  Any other way of dying is a tool error.
+    lines, rest, aborted = [], list(cases), []
+    while True:
+        open(cf, "w").write("\n".join(json.dumps(c) for c in rest) + "\n")
+        rc, out = vlib.vh(["config", "--cases", cf, "--seed", ctx.seed, "--out", trace], timeout=6000)
+        part = [l for l in open(trace).read().split("\n") if l.strip()] if os.path.exists(trace) else []
+        if rc == 0:
+            lines += part
+            break
+        died = "memory allocation of" in out or "panic in a destructor" in out or "panicked while panicking" in out or rc in (134, -6)
+        if not died or len(part) >= len(rest) or len(aborted) >= 20:
+            raise vlib.ToolError("config driver failed: " + out[-2000:])
+        lines += part
+        culprit = rest[len(part)]
+        aborted.append(culprit)
+        ctx.violation({"id": culprit["id"], "formula": "NoPanic", "what": "the process was aborted by the library in case %s: %s" % (culprit["id"], out.strip().split("\n")[0][:200]),
+                       "detail": ["NoPanic", "abort"], "case": culprit})
+        rest = rest[len(part) + 1:]
+    open(cf, "w").write("\n".join(json.dumps(c) for c in cases) + "\n")
+    open(trace, "w").write("\n".join(lines) + "\n")
+    ctx.extra["aborted_cases"] = [c["id"] for c in aborted]
+    recs = [json.loads(l) for l in lines]
     rv = vlib.tlc("ConfigTrace.tla", "ConfigTrace.cfg", workers=1, timeout=12000, env={"TRACE": trace},
                   metadir=os.path.join(ctx.out, "tv"), heap="6g")
     if rv.error or rv.violated or rv.printed("TOOLERR"):
@@ -125,16 +145,24 @@ def run(ctx):
 
 
 def replay(ctx, path):
-    rec = json.load(open(path))["record"]
+    v = json.load(open(path))
+    rec = v.get("record") or {"kind": "aborted", "id": v["case"]["id"]}
     case = {"kind": rec["kind"], "id": rec["id"]}
-    if rec["kind"] == "config":
+    if "case" in v:
+        case = v["case"]
+    elif rec["kind"] == "config":
         case.update({"phase": rec["phase"], "opts": rec["opts"], "base": int(rec["id"].split("-")[1]) % 2})
     else:
         case = rec["opts"]
     cf = os.path.join(ctx.out, "case.ndjson")
     open(cf, "w").write(json.dumps(case) + "\n")
     trace = os.path.join(ctx.out, "replay.ndjson")
-    vlib.vh(["config", "--cases", cf, "--seed", ctx.seed, "--out", trace], timeout=600)
+    rc, out = vlib.vh(["config", "--cases", cf, "--seed", ctx.seed, "--out", trace], timeout=600)
+    if rc != 0:
+        if "memory allocation of" in out or rc in (134, -6):
+            ctx.violation({"id": case["id"], "formula": "NoPanic", "what": "the process was aborted by the library: " + out.strip().split("\n")[0][:200], "case": case})
+            return
+        raise vlib.ToolError("config driver failed: " + out[-1000:])
     rv = vlib.tlc("ConfigTrace.tla", "ConfigTrace.cfg", workers=1, timeout=600, env={"TRACE": trace}, metadir=os.path.join(ctx.out, "tv"))
     recs = [json.loads(l) for l in open(trace)]
     for nc in rv.printed("NONCONF"):
